@@ -119,6 +119,58 @@ def int_constant_producers(rep, prog, cg):
         rep.anchor_missing(rule, 'IntConstant constructions in IntConstant::parse (found %d, expected 3)' % n)
 
 
+def backtracking(rep, prog):
+    """R16.b - no alternative re-parses a recursive parser that an earlier alternative of the same `alt` has already tried
+    at the same position: `alt((seq(Ty, X), Ty))` with Ty recursive doubles the work per nesting level (2^depth), so a
+    document nested a few dozen levels deep never returns in practice"""
+    import grammar
+    rule = 'R16.b'
+    g = grammar.Grammar(prog)
+    refs = {}
+    for name, ts in g.trees.items():
+        out = set(g.direct_calls.get(name, []))
+        for t in ts:
+            for n in g.walk(t):
+                if n.kind == 'ref':
+                    out.add(n.text)
+        refs[name] = out
+
+    def reaches_self(name):
+        seen, st = set(), list(refs.get(name, ()))
+        while st:
+            x = st.pop()
+            if x == name:
+                return True
+            if x in seen:
+                continue
+            seen.add(x)
+            st.extend(refs.get(x, ()))
+        return False
+
+    def lead(n):
+        while n.kind in ('map', 'recognize', 'cut', 'complete', 'peek') and n.kids:
+            n = n.kids[0]
+        if n.kind == 'seq' and n.kids:
+            return lead(n.kids[0])
+        return n.text if n.kind == 'ref' else None
+    nalt = 0
+    for name, ts in sorted(g.trees.items()):
+        for t in ts:
+            for n in g.walk(t):
+                if n.kind != 'alt':
+                    continue
+                nalt += 1
+                leads = [lead(k) for k in n.kids]
+                dup = sorted({x for x in leads if x and leads.count(x) > 1 and reaches_self(x)})
+                key = '%s|%s|alt %d' % (rule, name, nalt)
+                if dup:
+                    rep.bad(rule, key, g.bodies[name].loc(), 'in %s::parse two alternatives of one alt both begin with the recursive parser %s: when the first alternative fails after it, the whole sub-tree is parsed again, which doubles the work at every nesting level' % (name, dup))
+                else:
+                    rep.ok(rule, key, 'no recursive parser is tried twice at the same position', g.bodies[name].loc())
+    if nalt < 5:
+        rep.anchor_missing(rule, 'alt nodes in the grammar (found %d)' % nalt)
+
+
 def run(ctx):
     rep = Report('C16')
     prog = mirlib.load_program([ws_facts('ws')])
@@ -136,6 +188,7 @@ def run(ctx):
         rep.ok('R16.p', 'R16.p|' + b.id, 'parser body analysed (%d blocks)' % len(b.bbs), b.loc())
     rep.floor('R16.p', 25)
     int_constant_producers(rep, prog, cg)
+    backtracking(rep, prog)
     # recursion inventory
     g = {}
     for b in bodies:
